@@ -398,5 +398,5 @@ def history(rng, version, length, profile):
         if profile.get("lag") and rng.random() < 0.08:
             st.append(["lag", rng.randint(1, 4)])
         if profile.get("reload") and reload_hist and rng.random() < profile["reload"]:
-            st.append(["reload", rng.choice(["json", "pickle", "pickle"])])
+            st.append([rng.choice(["reload", "save", "save"]), rng.choice(["json", "pickle", "pickle"])])
     return st
